@@ -142,7 +142,7 @@ PROPS = {
         "suites": [("forkable", 3000, 40000), ("hubburst", 1500, 15000)], "props": ["C04"], "level": "proof",
         "projection": proj_forkable, "nontrivial": nt_forkable, "rule": FORKABLE_RULE, "trusted_base": FORKABLE_TB,
         "technique": "Lean 4 model computing every cursor field + cursor monitor (Lean) on the implementation's traces + differential correspondence of all cursor fields",
-        "level_text": "Props/C04: head_is_incoming_block — for every state, block and handler failure point every delivered event names the incoming block as cursor head (no hypothesis); irreversible_lib_is_itself, switch_events_lib — cursor LIB of Irreversible events is the block itself, of Undo/re-delivered New events the forkable's cursor LIB, and all undos of a batch name the same junction; junction_is_common_ancestor (buffer of well-formed blocks with growing heights): the undo list is the consumer's chain above the junction, the redo list the adopted chain above it, the junction the top of their common part, i.e. what the consumer rests on after the undos; segments_meet_at_junction holds for any buffer. Cursor step/block = the event's is the encoding of the model's events and is compared field by field with the implementation (CURSORMISMATCH marker). cursor_lib_of_every_event — for a forkable that knows its LIB, every Undo and New event carries the buffer's LIB as it was when the block came in (the last block announced irreversible or the starting LIB: invariant Inv.seen), Irreversible events carry themselves, nothing else is delivered but Stalled events (any handler failure point); lib_height_never_decreases — one ProcessBlock leaves the LIB where it was or moves it to a higher stored block. 'Never above the block height of a New event' and the burst / file cursors are decided by the Lean cursor monitor on every trace and by the C05/C06/C09 suites.", "level_note": LEVEL_NOTE_COMMON, "explanation": 'as C01',
+        "level_text": "Props/C04: head_is_incoming_block — for every state, block and handler failure point every delivered event names the incoming block as cursor head (no hypothesis); irreversible_lib_is_itself, switch_events_lib — cursor LIB of Irreversible events is the block itself, of Undo/re-delivered New events the forkable's cursor LIB, and all undos of a batch name the same junction; junction_is_common_ancestor (buffer of well-formed blocks with growing heights): the undo list is the consumer's chain above the junction, the redo list the adopted chain above it, the junction the top of their common part, i.e. what the consumer rests on after the undos; segments_meet_at_junction holds for any buffer. Cursor step/block = the event's is the encoding of the model's events and is compared field by field with the implementation (CURSORMISMATCH marker). cursor_lib_of_every_event — for a forkable that knows its LIB, every Undo and New event carries the buffer's LIB as it was when the block came in (the last block announced irreversible or the starting LIB: invariant Inv.seen), Irreversible events carry themselves, nothing else is delivered but Stalled events (any handler failure point); lib_height_never_decreases — one ProcessBlock leaves the LIB where it was or moves it to a higher stored block. cursor_lib_not_above_block / history_cursor_lib_not_above_block — along every history of blocks of one consistent block tree (hypotheses on the input only, as C01.history_discipline_consistent) the cursor LIB of every New event is strictly below the delivered block's height and the cursor LIB of every Irreversible event is the block itself (from Lemmas/NewHeights.processBlock_new_above_lib: delivered blocks lie on the path from the LIB to the incoming block, heights grow along it, and the cached chain carries the stored heights — the invariant Faithful now includes heights); new_events_deliver_redo_or_chain_blocks. The same for the hold-until-LIB discovery step and the burst / file cursors is decided by the Lean cursor monitor on every trace and by the C05/C06/C09 suites.", "level_note": LEVEL_NOTE_COMMON, "explanation": 'as C01',
     },
     "C05": {
         "suites": [("hubburst", 2500, 30000)], "props": ["C05"], "level": "proof",
